@@ -207,7 +207,10 @@ class Ctx:
 
 
 def write_evidence(ctx: Ctx, nviol: int) -> None:
-    os.makedirs(EVIDENCE, exist_ok=True)
+    evdir = EVIDENCE
+    if os.path.realpath(REPO) != "/repo":   # a run against a scratch tree must not overwrite /repo's evidence
+        evdir = os.path.join(VERIF, "work", "evidence_other_tree")
+    os.makedirs(evdir, exist_ok=True)
     cov = dict(ctx.coverage)
     cov.setdefault("states", ctx.states)
     cov.setdefault("transitions", ctx.transitions)
@@ -221,7 +224,7 @@ def write_evidence(ctx: Ctx, nviol: int) -> None:
         "wall_s": round(time.time() - ctx.t0, 2),
         "violations": nviol,
     }
-    p = os.path.join(EVIDENCE, f"{ctx.pid}.json")
+    p = os.path.join(evdir, f"{ctx.pid}.json")
     with open(p + ".tmp", "w") as f:
         json.dump(ev, f, indent=1, default=str)
     os.replace(p + ".tmp", p)
